@@ -22,6 +22,7 @@ func main() {
 	replay := flag.String("replay", "", "replay file (re-evaluates the property and reports whether that obligation still fails)")
 	list := flag.Bool("list", false, "list implemented properties")
 	dump := flag.Bool("dump", false, "print every obligation")
+	sweep := flag.Bool("sweep", false, "audit aid: evaluate all properties in one process and list the rules that fire (writes no evidence)")
 	dumpL := flag.String("dump-layouts", "", "print derived TL-B layouts of the struct types of a package (audit aid)")
 	flag.Parse()
 	if t := os.Getenv("VERIF_TIER"); t != "" && *tier == "" {
@@ -46,6 +47,61 @@ func main() {
 		}
 		dumpLayouts(c, *dumpL)
 		return
+	}
+	if *sweep {
+		// audit aid for the mutation tools: load once, evaluate every property, print one line per
+		// property with the rules that have an unlisted violation (no evidence is written)
+		c, err := load(nil)
+		if err != nil {
+			fmt.Fprintf(os.Stderr, "tongocheck: %v\n", err)
+			os.Exit(2)
+		}
+		var ids []string
+		for id := range props {
+			ids = append(ids, id)
+		}
+		sort.Strings(ids)
+		rc := 0
+		for _, id := range ids {
+			cc := c.shadow()
+			cc.Prop, cc.Tier = id, *tier
+			runRules(cc, props[id])
+			cc.loadKnown()
+			fired := map[string]bool{}
+			for _, o := range cc.Obls {
+				if o.Status != "violation" {
+					continue
+				}
+				known := false
+				for _, k := range cc.known {
+					if k.Property == id && k.Status == "known" && k.Key == o.Key {
+						known = true
+					}
+				}
+				if !known {
+					fired[o.Rule] = true
+				}
+			}
+			n := map[string]int{}
+			for _, o := range cc.Obls {
+				n[o.Rule]++
+			}
+			for r, fl := range cc.floors {
+				if n[r] < fl {
+					fired[r+"(floor)"] = true
+				}
+			}
+			var rs []string
+			for r := range fired {
+				rs = append(rs, r)
+			}
+			sort.Strings(rs)
+			if len(rs) > 0 {
+				rc = 1
+			}
+			fmt.Printf("SWEEP %s %s\n", id, strings.Join(rs, ","))
+		}
+		os.Exit(rc)
 	}
 	pf, ok := props[*prop]
 	if !ok {
